@@ -351,6 +351,13 @@ class Interp:
             tb = ("k", cb) if cb is not None else None
         if ta is None or tb is None:
             return None
+        if ta[0] == "k" and tb[0] == "k" and ta[1] is not None and tb[1] is not None:
+            try:
+                v = {"Add": ta[1] + tb[1], "Sub": ta[1] - tb[1], "Mul": ta[1] * tb[1], "Div": ta[1] // tb[1] if tb[1] else None, "Rem": ta[1] % tb[1] if tb[1] else None}[op]
+            except Exception:
+                v = None
+            if v is not None and v >= 0:
+                return ("k", v)
         if op in ("Add", "Mul") and repr(ta) > repr(tb):
             ta, tb = tb, ta
         t = (op, ta, tb)
@@ -361,6 +368,31 @@ class Interp:
         if _depth(t) > 8:
             return None
         return t
+
+    def term_lo(self, t, st):
+        if t[0] == "k":
+            return t[1]
+        r = st.term_ranges.get(t)
+        return r[0] if r else 0
+
+    def entails_noovf(self, t, st):
+        """Is term t known not to overflow on this path? Exact fact, or x + y <= x + n*y for a recorded
+        no-overflow fact about x + n*y with n >= 1 (monotonicity of unsigned arithmetic)."""
+        if t in st.noovf:
+            return True
+        if t[0] == "Add":
+            x, y = t[1], t[2]
+            for f in st.noovf:
+                if f[0] != "Add":
+                    continue
+                for (p, q) in ((f[1], f[2]), (f[2], f[1])):
+                    for (u, v) in ((x, y), (y, x)):
+                        # fact: p + q with p == u and q == Mul(v, n), n >= 1
+                        if p == u and q[0] == "Mul" and v in (q[1], q[2]):
+                            n = q[2] if q[1] == v else q[1]
+                            if self.term_lo(n, st) >= 1:
+                                return True
+        return False
 
     def rvalue(self, fn, fid, rv, st, dest_ty=None):
         k = rv["k"]
@@ -483,7 +515,7 @@ class Interp:
         ov = None
         if base in ("Add", "Sub", "Mul"):
             ov = int_overflows(base, a, b)
-            if ov is None and t is not None and t in st.noovf:
+            if ov is None and t is not None and self.entails_noovf(t, st):
                 ov = 0
             if ov == 0 and not a[2]:
                 # ideal result == machine result: keep the interval of the ideal value
@@ -544,6 +576,8 @@ class Interp:
                         s2.term_ranges[old[6]] = (new[4], new[5])
             elif t is not None and t[0] == "ovf" and not truth and t[1] is not None:
                 s2.noovf = s2.noovf | {t[1]}
+            elif t is not None and t[0] not in ("cmp", "ovf"):
+                s2.term_ranges[t] = (int(truth), int(truth))
             out.append((truth, s2))
         return out
 
@@ -724,7 +758,9 @@ class Interp:
                         if t["target"] is None:
                             break
                         if not t["dest"]["proj"]:
-                            st.frames[fid][t["dest"]["l"]] = self.top_of_ty(fn.locals[t["dest"]["l"]]["ty"])
+                            dl = t["dest"]["l"]
+                            # logging is epsilon: the level test is taken as "disabled" so the log body is skipped
+                            st.frames[fid][dl] = const(0, 1) if fn.locals[dl]["ty"] == "bool" else self.top_of_ty(fn.locals[dl]["ty"])
                         b = t["target"]
                         continue
                     res = self.call(fn, fid, b, t, st, depth)
